@@ -53,6 +53,9 @@ def realise(rec, accel, prev_w=None):
             d["scalar"] = 3.0
         else:
             d["ifm2"] = _fm(rec["wb"], (H, W, C), li)
+            d["ifm2"]["scale"] = (0.5, 0.25, 1.0)[rec.get("sc2", 0)]
+            d["reversed"] = bool(rec.get("rev", 0))
+            d["sub"] = "SUB" if rec.get("blk", 0) % 2 else "ADD"
         return d
     kh, kw, s = rec["kh"], rec["kw"], rec["s"]
     pt, pb = min(rec["pt"], kh - 1), min(rec["pb"], kh - 1)
